@@ -32,6 +32,10 @@ def build(repo, tier, seed):
         "within one evaluation a shared dependency runs once: the second consumer's Cached.evaluate finds the entry stored by the first (L8 hit-runs-nothing + sigma threading through "
         "EvaluatableKwargs' comprehension, sequential order by the trace obligations)",
         "effects run once per body execution, after it, with its value, and never on a hit: Computation:C16 obligations + the tower structure (Computation and Logged inside Cached)"]
+    from . import frame_state
+    b["syntactic"] += frame_state.obligations(repo)
+    b["assumptions"].append("no hidden state: outside constructors and the declared mutators (Overloaded.register/__setstate__, Dataset.set_dispatch/set_cache/enable_effects/disable_effects, "
+                            "MemoryCache.set) no method of a class reaching the labrea ABCs stores into its receiver, its class or a module global (AST frame, group <Class>:frame)")
     return b
 
 
